@@ -28,7 +28,7 @@ theorem no_report_of_unfinished {st : Name → RS} {ev : List Ev} (hc : CountOK 
 theorem core_status {inp : Input} {s : Sys} {n : Name} {nd : Node} (h : ObeyCore inp s) (hn : s.nodes n = some nd)
     (hu : nd.status.finished = false) (hpc : nd.pc = .done) (st' : RS) (e : Ev)
     (hok : st' = .ok → e = .success n) (hutd : st' = .utd → e = .skipUtd n) (hrun : st' = .run → e = .start n)
-    (hob : obeyOK (nodeDeps s) inp.noAct (e :: s.events) = true) :
+    (hob : obeyOK (nodeDeps s) inp.noAct (e :: s.events) = true) (hut : utdOK inp.utd (e :: s.events) = true) :
     ObeyCore inp { setNode s n { nd with status := st' } with events := e :: s.events } := by
   have hsn : stOf s n = nd.status := by simp [stOf, hn]
   have hst : ∀ d, stOf { setNode s n { nd with status := st' } with events := e :: s.events } d =
@@ -74,6 +74,7 @@ theorem core_status {inp : Input} {s : Sys} {n : Name} {nd : Node} (h : ObeyCore
     · subst hdn; simp only [if_true] at hd'; rw [hrun hd']; exact List.mem_cons_self
     · simp only [hdn, if_false] at hd'; exact List.mem_cons_of_mem _ (h.runS d hd')
   · rw [hd]; exact hob
+  · exact hut
 
 theorem core_nodeStep {inp : Input} {s : Sys} {n : Name} {nd : Node} (h : ObeyCore inp s) (ha : AfterInv inp s)
     (hn : s.nodes n = some nd) (hl : nd.pc = .loaderPc → nd.task.loader = none) :
@@ -202,6 +203,7 @@ theorem ObeyCore.creator {inp : Input} {s s' : Sys} (h : ObeyCore inp s) (c : CI
   · intro d hd; rw [stOf_congr h4] at hd; rw [h3]; exact List.mem_cons_of_mem _ (h.utdS d hd)
   · intro d hd; rw [stOf_congr h4] at hd; rw [h3]; exact List.mem_cons_of_mem _ (h.runS d hd)
   · rw [nodeDeps_congr h4, h3]; simp only [obeyOK]; exact h.obey
+  · rw [h3]; simp only [utdOK]; exact h.utd
 
 theorem core_evalCreator {inp : Input} {s : Sys} {l : LId} (tname : Name) (h : ObeyCore inp s) :
     ObeyCore inp (evalCreator inp s l tname) := by
@@ -294,17 +296,19 @@ theorem core_selectStep {inp : Input} {s s' : Sys} {n : Name} {perm : List Name}
       · refine core_handBack ?_ hs
         unfold failSys
         refine (core_status h hn hu hpc .fail (.unmet n) (fun e => by cases e) (fun e => by cases e)
-          (fun e => by cases e) ?_).congr rfl rfl
+          (fun e => by cases e) ?_ (by simp only [utdOK]; exact h.utd)).congr rfl rfl
         simp only [obeyOK, hnoS, hnoR, h.obey]; rfl
       · rename_i hbad
         split at hs
-        · refine core_handBack ?_ hs
+        · rename_i hutd
+          refine core_handBack ?_ hs
           refine (core_status h hn hu hpc .utd (.skipUtd n) (fun e => by cases e) (fun _ => rfl)
-            (fun e => by cases e) ?_).congr rfl rfl
+            (fun e => by cases e) ?_ (by simp only [utdOK, hutd, h.utd]; rfl)).congr rfl rfl
           simp only [obeyOK, hnoS, hnoR, h.obey]; rfl
-        · cases hs
+        · rename_i hutd
+          cases hs
           refine (core_status h hn hu hpc .run (.start n) (fun e => by cases e) (fun e => by cases e)
-            (fun _ => rfl) ?_).congr rfl rfl
+            (fun _ => rfl) ?_ (by simp only [utdOK, hutd, h.utd]; rfl)).congr rfl rfl
           have hdeps : (nodeDeps s n).all
               (fun d => s.events.any (fun e => e = .success d || e = .skipUtd d)) = true := by
             rw [List.all_eq_true]
@@ -348,12 +352,12 @@ theorem core_finishStep {inp : Input} {s s' : Sys} {n : Name} {perm : List Name}
                                  running := s.running.filter (· ≠ n) } := by
           unfold failSys
           refine (core_status h hn hu hpc .fail (.failure n) (fun e => by cases e) (fun e => by cases e)
-            (fun e => by cases e) ?_).congr rfl rfl
+            (fun e => by cases e) ?_ (by simp only [utdOK]; exact h.utd)).congr rfl rfl
           simp only [obeyOK, hnoR, hS, h.obey]; simp
         have qs : ObeyCore inp { setNode s n { nd with status := .ok } with
                                  events := Ev.success n :: s.events, running := s.running.filter (· ≠ n) } := by
           refine (core_status h hn hu hpc .ok (.success n) (fun _ => rfl) (fun e => by cases e)
-            (fun e => by cases e) ?_).congr rfl rfl
+            (fun e => by cases e) ?_ (by simp only [utdOK]; exact h.utd)).congr rfl rfl
           simp only [obeyOK, hnoR, hS, h.obey]; simp
         split at hs
         · split at hs
